@@ -2,13 +2,114 @@
 Tie: gated replay of seeded schedules on the real dag.Walker + worker.TaskWorkerPool inside a synctest bubble,
 walked step by step through the extracted Walker.v (both directions), model-free oracles on the same traces,
 plus ungated zero-latency walks on all cores.  See walkerlib.py."""
-import vlib, walkerlib
+import json, os
+from collections import Counter
+import vlib, walkerlib, buildlib as bl, histcheck as hc
 
 TRUSTED = ("testing/synctest quiescence (synctest.Wait) of the Go runtime",
            "ocaml/walker/driver.ml: observation relation between a quiescent state of the real code and Walker.state")
 
 
+def trans_deps(nodes, i):
+    """target indices the target i transitively depends on (aliases followed)"""
+    seen, todo, res = set(), list(nodes[i]["deps"]), set()
+    while todo:
+        d = todo.pop()
+        if d in seen:
+            continue
+        seen.add(d)
+        if nodes[d]["k"] == "a":
+            todo.append(nodes[d]["actual"])
+        else:
+            res.add(d)
+            todo += nodes[d]["deps"]
+    return res
+
+
+def e2e_plan(mode, witness=False):
+    def plan(h, r):
+        W = r.choice([1, 2, 3, 4])
+        open(os.path.join(h.ws, "grog.toml"), "w").write("num_workers = %d\n" % W)
+        if witness:
+            # a no-cache dependency with an output, two cache-missing dependants of it and a dependant of those
+            mk = lambda name, deps, nc: {"k": "t", "pkg": "p", "name": name, "salt": "v0", "ins": [], "glob": None, "excl": [],
+                                         "outs": [("file", "o_%s.txt" % name)], "deps": deps, "fp": {}, "nocache": nc, "multi": False,
+                                         "beh": "n", "check": False, "comment": "", "sleep": "0.05"}
+            snap = {"nodes": [mk("a", [], True), mk("b", [0], False), mk("c", [0], False), mk("d", [1, 2], False)], "files": {}}
+        else:
+            feats = dict(hc.FULL); feats["nocache"] = True
+            snap = bl.gen_snapshot(r, ntargets=3 + r.below(5), features=feats)
+            for n in snap["nodes"]:
+                if n["k"] == "t" and r.chance(1, 2):
+                    n["sleep"] = r.choice(["0.02", "0.05", "0.1"])
+        cfg = {"mode": mode, "cache": True, "workers": W}     # run_build exports GROG_NUM_WORKERS, which overrides grog.toml
+        h.set_sources(snap); h.build(cfg)
+        s2, why = bl.edit_snapshot(r, h.snap)
+        h.set_sources(s2, why); h.build(cfg)
+        h.build(cfg)
+        return [("workers", W)]
+    return plan
+
+
+def e2e_campaign(out, tier):
+    """the real binary on generated workspaces, both load_outputs modes, num_workers 1..4 (grog.toml): the O_APPEND trace
+    shared by all generated commands must show every command at most once per build, started only after the commands of
+    its transitive dependencies that ran in this build have ended, and never more than num_workers commands open."""
+    n = 12 if tier == "quick" else 300
+    plans = [("e2e-witness-min", e2e_plan("min", True)), ("e2e-witness-all", e2e_plan("all", True))]
+    plans += [("e2e-min", e2e_plan("min"))] * n + [("e2e-all", e2e_plan("all"))] * n
+    batch = hc.run_batch(plans, vlib.seed())
+    hc.check_plan_errors(batch)
+    evals = 0; maxopen = Counter(); builds = 0
+    for name, h, notes, m in batch:
+        W = dict((x[0], x[1]) for x in notes if len(x) == 2).get("workers")
+        snaps = [o[1] for o in h.ops if o[0] == "S"]
+        k = -1; cur = None; bi = -1
+        for o in h.ops:
+            if o[0] == "S":
+                cur = o[1]
+            if o[0] != "B":
+                continue
+            bi += 1
+            b = h.builds[bi]; builds += 1
+            nodes = cur["nodes"]
+            lab2idx = {bl.label(nd): i for i, nd in enumerate(nodes) if nd["k"] == "t"}
+            order = [l.split(" ", 1) for l in b["order"] if l[:2] in ("S ", "E ")]
+            evals += 1
+            problems = []
+            cnt = Counter(l for kd, l in order if kd == "S")
+            twice = sorted(l for l, c in cnt.items() if c > 1)
+            if twice:
+                problems.append("command of %s ran %s times in one build (no cache fault)" % (twice, [cnt[l] for l in twice]))
+            ended = set(); started = set(); open_now = 0; peak = 0
+            for kd, l in order:
+                if kd == "S":
+                    open_now += 1; peak = max(peak, open_now)
+                    i = lab2idx.get(l)
+                    if i is not None:
+                        for d in trans_deps(nodes, i):
+                            dl = bl.label(nodes[d])
+                            if dl in cnt and dl not in ended:
+                                problems.append("command of %s started before the command of its dependency %s had ended" % (l, dl))
+                    started.add(l)
+                else:
+                    open_now -= 1; ended.add(l)
+            maxopen[peak] += 1
+            if W and peak > W:
+                problems.append("%d commands were running at once with num_workers = %d" % (peak, W))
+            # a dependant must not start when a dependency that ran did not finish (keep-going build, no failing commands here)
+            for pr in problems[:1]:
+                rp = h.replay_dict(); rp["oracle"] = pr; rp["build"] = bi; rp["trace"] = b["order"][:60]; rp["num_workers"] = W
+                out.violation("%s [build %d, %s, num_workers %s; %s]" % (pr, bi, json.dumps(b["cfg"]), W, "; ".join(h.desc)[:200]), rp)
+    st, _ = hc.stats(batch)
+    hc.cleanup(batch)
+    return {"e2e_histories": len(batch), "e2e_builds": builds, "e2e_oracle_evaluations": evals,
+            "e2e_peak_open_commands_histogram": {str(k): v for k, v in sorted(maxopen.items())},
+            "e2e_input_distribution": st}
+
+
 def run(out, tier):
+    einfo = e2e_campaign(out, tier)
     info, scheds, extra = walkerlib.gated_campaign(out, "C03", tier, "order")
     sinfo = walkerlib.stress_campaign(out, "C03", tier, "order", race=(tier == "thorough"))
     samples = []
@@ -19,8 +120,9 @@ def run(out, tier):
                             "trace_head": [[a, o] for a, o in tr["steps"][:4]], "end": tr["end"]})
     out.cov.update(info)
     out.cov.update(sinfo)
+    out.cov.update(einfo)
     out.cov.update({
-        "evaluations": info.get("steps", 0) + sinfo.get("ungated_walks", 0) + sinfo.get("ungated_walker_only_walks", 0),
+        "evaluations": info.get("steps", 0) + sinfo.get("ungated_walks", 0) + sinfo.get("ungated_walker_only_walks", 0) + einfo["e2e_oracle_evaluations"],
         "rule": "gated: one evaluation per quiescent step (observation compared with the model in both directions + deps-first / at-most-once / "
                 "<= num_workers oracles); ungated: one per walk; distinct_nontrivial = distinct (graph, W, mode, failing set, action sequence) with more than 3 actions",
         "samples": samples,
@@ -30,8 +132,14 @@ def run(out, tier):
             60 if tier == "quick" else 200, walkerlib.WS),
     })
     out.assumptions += walkerlib.ASSUMPTIONS
-    out.notes.append("the 'once per build' clause for commands under load_outputs=minimal (no-cache dependency re-run per dependant) belongs to the Build.v slice (C15)")
+    out.notes.append("e2e stage: the command-level clauses (once per build, dependencies' commands ended first, <= num_workers open) are "
+                     "checked model-free on the real binary's command trace in both load_outputs modes; the Build.v side of 'once per build' "
+                     "under load_outputs=minimal is C15's lock-step theorem")
 
 
 def replay(out, path):
+    rp = json.load(open(path))["replay"]
+    if "oracle" in rp and "ops" in rp:
+        print(json.dumps({k: rp.get(k) for k in ("oracle", "build", "num_workers", "description", "trace")}, indent=1)[:4000])
+        return
     walkerlib.replay(out, "C03", path)
